@@ -27,7 +27,7 @@ RULE = ("Hypothesis draws a corpus string s (with the locale a loose autodetect 
 ASSUMPTIONS = ["frozen clock, default settings (one settings hash per DEFAULT_LANGUAGES list)",
                "for a language whose lang-REGION code is not listed, the plain language is what 'selecting the region' can mean (the reported locale is lang-REGION exactly when that code is listed)",
                "experiment D resets LocaleDataLoader's class-level caches before the call so that an earlier clean load cannot mask a misbuilt locale"]
-ESSENTIAL = ["regional-own-name", "tz-word-string", "exp:A", "exp:B", "exp:C", "exp:D", "exp:E", "locales-list", "entry:region", "entry:numeric-anchor", "given-order", "default-languages", "region:partly-invalid", "differs-between-languages"]
+ESSENTIAL = ["regional-own-name", "tz-word-string", "exp:A", "exp:B", "exp:C", "exp:D", "exp:E", "locales-list", "entry:+formats", "entry:+settings", "entry:none", "entry:region", "entry:numeric-anchor", "given-order", "default-languages", "region:partly-invalid", "differs-between-languages"]
 
 NOW = dt.datetime(2015, 6, 15, 10, 30)
 _corpus = []
@@ -238,11 +238,24 @@ def _check(case, exp, s, cls):
             kw["locales"] = [case["locale"]]
         if mode in ("lang+region", "region"):
             kw["region"] = case["region"]
-        by_class = _res(_parser(**kw).get_date_data(s))
-        top = dateparser.parse(s, **kw)
-        key = (s, mode, tuple(case.get("langs") or ()), case.get("locale"), case.get("region"), "E")
+        formats, sd = case.get("formats"), case.get("sd")
+        ckw = dict(kw)
+        if sd:
+            # settings ride along to both entry points (a reference time is stored as a list in the case)
+            ckw["settings"] = {k: (dt.datetime(*v) if k == "RELATIVE_BASE" else v) for k, v in sd.items()}
+            cls.append("entry:+settings")
+        if formats:
+            cls.append("entry:+formats")
+        by_class = _res(DateDataParser(**ckw).get_date_data(s, list(formats) if formats else None)) if sd else \
+            _res(_parser(**kw).get_date_data(s, list(formats) if formats else None))
+        top = dateparser.parse(s, date_formats=list(formats) if formats else None, **ckw)
+        key = (s, mode, tuple(case.get("langs") or ()), case.get("locale"), case.get("region"), tuple(formats or ()),
+               tuple(sorted((sd or {}).keys())), "E")
         if top != by_class[0]:
-            return fail("toplevel-differs", "dateparser.parse(%r, **%r) -> %r, DateDataParser(**%r) -> %r" % (s, kw, top, kw, by_class), key)
+            return fail("toplevel-differs", "dateparser.parse(%r, date_formats=%r, **%r) -> %r, DateDataParser(**%r).get_date_data(s, %r) -> %r"
+                        % (s, formats, ckw, top, ckw, formats, by_class), key)
+        if formats or sd:
+            return {"ok": True, "key": key, "cls": cls}
         if case.get("num") and mode in ("region", "lang+region", "locales"):
             # absolute anchor for an ambiguous numeric date: the first applicable language (English when none is given) with
             # that region decides the order
@@ -312,8 +325,31 @@ def cases(draw):
     c = {"exp": exp, "s": s}
     if exp == "E":
         lld = data.language_locale_dict()
-        mode = draw(st.sampled_from(["languages", "locales", "lang+region", "region", "region"]))
+        mode = draw(st.sampled_from(["languages", "locales", "lang+region", "region", "region", "none"]))
         c["mode"] = mode
+        if mode == "none" or draw(st.integers(0, 3)) == 0:
+            # date_formats and/or settings with (or without) a selection: strings on which they make a difference
+            s_, f_, sd_ = draw(st.sampled_from([
+                ("03-04-05", ["%y-%m-%d"], None), ("03-04-05", ["%d-%m-%y"], {"DATE_ORDER": "YMD"}), ("02-03-2016", None, {"DATE_ORDER": "DMY"}),
+                ("March", None, {"PREFER_DATES_FROM": "future", "RELATIVE_BASE": [2015, 6, 15, 10, 30, 0, 0]}),
+                ("yesterday", None, {"RELATIVE_BASE": [2001, 2, 3, 4, 5, 6, 0]}), ("2015|03|04", ["%Y|%m|%d"], None),
+                ("12 2015", ["%m %Y"], {"PREFER_DAY_OF_MONTH": "last"}), ("10:00", None, {"TIMEZONE": "UTC+3", "RETURN_AS_TIMEZONE_AWARE": True}),
+                ("1500000000", None, {"TO_TIMEZONE": "Asia/Tokyo"}), ("March 2015", None, {"REQUIRE_PARTS": ["day"]}),
+                ("27 Haziran 1981 de", None, {"SKIP_TOKENS": ["de"]}), ("Thursday", ["%A"], None)]))
+            c["s"], c["formats"], c["sd"] = s_, f_, sd_
+            if mode == "none":
+                return c
+            if mode == "region":
+                c["region"] = draw(st.sampled_from(["GB", "AU", "US", "FR", "ZZ"]))
+                return c
+            L = draw(st.sampled_from(["en", "fr", "tr", "de"]))
+            if mode == "locales":
+                c["locale"] = draw(st.sampled_from(lld[L]))
+            else:
+                c["langs"] = [L]
+                if mode == "lang+region":
+                    c["region"] = draw(st.sampled_from(["GB", "CA", "BE", "ZZ"]))
+            return c
         numeric = draw(st.booleans()) or mode == "region"
         if numeric:
             a, b = draw(st.integers(1, 12)), draw(st.integers(1, 12))
